@@ -2,6 +2,11 @@ import TonicModel.Model.Metadata
 import TonicModel.Spec.Metadata
 import TonicModel.Lemmas.Metadata
 import TonicModel.Lemmas.Status
+import TonicModel.Model.MetadataEntry
+import TonicModel.Model.MetadataApi
+import TonicModel.Spec.MetadataEntry
+import TonicModel.Lemmas.MetadataEntry
+import TonicModel.Lemmas.MetadataEntryMap
 /-
 C08 — User metadata crosses the wire intact; protocol headers cannot be forged.
 Property theorems only; helper lemmas live in `Lemmas/Metadata.lean`, `Lemmas/Status.lean`, `Basic/*`.
@@ -371,6 +376,245 @@ theorem C08_padding_indifferent (n b : Bytes) (pad : Bool) (hb : Spec.Metadata.i
   have h := isBinKey_fixed_stored n hwf
   simp [typedView, iter, validKey, h, hb, valueToBytes, B64.decode_encode]
 
+
+/-! ## the entry API (`entry`, `entry_bin`, `Entry`, `VacantEntry`, `OccupiedEntry`, `GetAll`) -/
+
+/-- **No miscategorisation and no miscategorised storage through the entry API.** For *every*
+sequence of operations (`insert`/`append`/`remove`/`get_all` and `entry`/`entry_bin` with any of
+the five key forms, followed by any script of `Entry` / `VacantEntry` / `OccupiedEntry` calls,
+including calls on the handle `insert_entry` returns) on *every* starting map:
+(1) every key, value, iterator item and entry handle the API hands out is typed `Binary` iff the
+stored name it belongs to ends in `-bin`, and every value written is written through a type of
+the stored name's category and is restored by that category's `to_bytes` to the bytes it was
+built from (`evOk`); (2) every entry of the resulting map either was in the starting map or was
+written by such an operation — through the category of its name, decodable back to what the
+caller gave.  Model of the tree with `insert_entry` repaired (`IE.fixed`). -/
+theorem C08_entry_api_keeps_categories (ops : List MetaOps.Op) (m0 : HMap) :
+    (∀ s ∈ run .fixed .fixed ops m0, ∀ ev ∈ s.1, Spec.Metadata.EntryApi.evOk ev = true) ∧
+    (∀ e ∈ finalMap (run .fixed .fixed ops m0) m0, e ∈ m0 ∨
+      ∃ s ∈ run .fixed .fixed ops m0, ∃ raw,
+        MetaOps.Ev.wrote (Spec.Metadata.isBinName e.1) e.1 raw e.2 ∈ s.1 ∧
+        MetaOps.decodeAs (Spec.Metadata.isBinName e.1) e.2 = some raw) := by
+  refine ⟨run_ok ops m0, ?_⟩
+  intro e he
+  rcases run_prov .fixed .fixed ops m0 e he with h | ⟨s, hs, b, raw, hw⟩
+  · exact .inl h
+  · refine .inr ⟨s, hs, raw, ?_⟩
+    have hok := run_ok ops m0 s hs _ hw
+    simp only [Spec.Metadata.EntryApi.evOk, Bool.and_eq_true, beq_iff_eq] at hok
+    obtain ⟨hb, hd⟩ := hok
+    subst hb
+    exact ⟨hw, hd⟩
+
+/-- the witness: `entry_bin("x-bin")` is vacant; `insert_entry(bytes 00 01 02)`; on the handle
+returned: `get()`, then `append("not base64!")` -/
+def insertEntryWitness : List MetaOps.Op :=
+  [.entry true .str (HMap.name "x-bin")
+    (.branch (.insertEntry [0, 1, 2]) [.get, .append (HMap.name "not base64!")])]
+
+/-- **On the tree as found this fails**: `VacantEntry::<Binary>::insert_entry` returns an
+`OccupiedEntry<'_, Ascii>`, so the binary entry `x-bin` is handed out typed ASCII (key and value),
+and an ASCII value can be appended under the `-bin` name — the receiver's typed view then has a
+binary entry that does not decode. -/
+theorem C08_insert_entry_asis_fails :
+    (¬ ∀ (ops : List MetaOps.Op) (m0 : HMap), ∀ s ∈ run .fixed .asis ops m0, ∀ ev ∈ s.1,
+        Spec.Metadata.EntryApi.evOk ev = true) ∧
+    (Enc.binary, HMap.name "x-bin", none) ∈ typedView .fixed (finalMap (run .fixed .asis insertEntryWitness []) []) := by
+  constructor
+  · intro h
+    have := h insertEntryWitness []
+    revert this
+    decide
+  · decide
+
+/-! ## every constructor and comparison of the typed API -/
+
+/-- **Binary constructors.** `from_bytes`, `TryFrom<&[u8]>`, `TryFrom<Vec<u8>>` and
+`TryFrom<Bytes>` all store the unpadded base64 of the bytes given, and `to_bytes` gives them
+back; `from_static` keeps a valid base64 text as it is (and panics on anything else), and the
+text decodes. -/
+theorem C08_binary_constructors (c : Ctor) (src : Bytes) :
+    (c ≠ .fromStatic → construct .binary c src = .ok (B64.encode false src) ∧
+        valueToBytes .binary (B64.encode false src) = some src) ∧
+    (c = .fromStatic → (construct .binary c src = .panic ∧ B64.decode src = none) ∨
+        (construct .binary c src = .ok src ∧ (valueToBytes .binary src).isSome = true)) := by
+  constructor
+  · intro hc
+    refine ⟨?_, by simp [valueToBytes, B64.decode_encode]⟩
+    cases c <;> first | rfl | exact absurd rfl hc
+  · intro hc
+    subst hc
+    simp only [construct, valueToBytes]
+    cases B64.decode src with
+    | none => exact .inl ⟨rfl, rfl⟩
+    | some d => exact .inr ⟨rfl, rfl⟩
+
+/-- **ASCII constructors.** Every constructor (`TryFrom<&[u8] | Vec<u8> | Bytes | &str | String |
+&String>`, `FromStr`, `from_static`) either rejects the input or stores it verbatim, `to_bytes`
+returns it verbatim, and what is stored is a legal header value; the fallible ones accept exactly
+the legal header values. -/
+theorem C08_ascii_constructors (c : Ctor) (src w : Bytes) :
+    (construct .ascii c src = .ok w → w = src ∧ HMap.legalValue src = true ∧ valueToBytes .ascii w = some src) ∧
+    (c ≠ .fromStatic → (construct .ascii c src = .err ↔ HMap.legalValue src = false)) := by
+  have hvis : src.all Ascii.isVisible = true → HMap.legalValue src = true := by
+    intro h
+    simp only [HMap.legalValue, List.all_eq_true] at h ⊢
+    intro b hb
+    have := h b hb
+    simp only [Ascii.isVisible, HMap.legalValueByte, Bool.or_eq_true, Bool.and_eq_true, decide_eq_true_eq,
+      beq_iff_eq, bne_iff_ne, ne_eq] at this ⊢
+    omega
+  constructor
+  · intro h
+    cases c <;> simp only [construct] at h <;> split at h <;> cases h
+    all_goals first | exact ⟨rfl, ‹_›, rfl⟩ | exact ⟨rfl, hvis ‹_›, rfl⟩
+  · intro hc
+    cases c <;> first | exact absurd rfl hc | skip
+    all_goals
+      simp only [construct]
+      by_cases hl : HMap.legalValue src = true <;> simp [hl]
+
+/-- **Static keys.** `MetadataKey::<VE>::from_static` yields a key only for a string that is
+already in stored form (no upper case) and whose `-bin` suffix matches `VE`; otherwise it
+panics. -/
+theorem C08_static_key_category (enc : Enc) (src n : Bytes) (h : keyFromStatic .fixed enc src = some n) :
+    n = src ∧ MetaOps.staticName src = true ∧ ownCategory enc n = true := by
+  unfold keyFromStatic nameFromStatic at h
+  by_cases hs : MetaOps.staticName src = true
+  · simp only [hs, if_true] at h
+    by_cases hv : validKey .fixed enc src = true
+    · simp only [hv, if_true, Option.some.injEq] at h
+      subst h
+      refine ⟨rfl, hs, ?_⟩
+      -- a string in stored form is its own lower-casing, so the suffix test on it is the spec's
+      have hlowc : ∀ k : Fin 256, MetaOps.staticNameChar (UInt8.ofNat k.val) = true →
+          Ascii.toLower (UInt8.ofNat k.val) = UInt8.ofNat k.val := by decide +kernel
+      have hlow : src.map Ascii.toLower = src := by
+        simp only [MetaOps.staticName, Bool.and_eq_true, List.all_eq_true] at hs
+        have : ∀ l : Bytes, (∀ b ∈ l, MetaOps.staticNameChar b = true) → l.map Ascii.toLower = l := by
+          intro l
+          induction l with
+          | nil => intro _; rfl
+          | cons b rest ih =>
+            intro hl
+            have hb := hlowc ⟨b.toNat, b.toNat_lt⟩
+            simp only [UInt8.ofNat_toNat] at hb
+            rw [List.map_cons, hb (hl b (by simp)), ih (fun x hx => hl x (by simp [hx]))]
+        exact this src hs.2
+      have hb : isBinKey .fixed src = Spec.Metadata.isBinName src := by
+        unfold isBinKey
+        simp only []
+        rw [hlow, endsWith_bin_iff]
+      cases enc <;> simp only [validKey, hb, ownCategory] at hv ⊢ <;>
+        by_cases hx : Spec.Metadata.isBinName src = true <;> simp [hx] at hv ⊢
+    · simp [hv] at h
+  · simp [hs] at h
+
+/-- **Comparisons.** `PartialEq<str | [u8]>` of a binary value compares the *decoded* bytes;
+of an ASCII value the stored bytes; and `Hash` is consistent with `Eq` for both. -/
+theorem C08_comparisons (enc : Enc) (a b other : Bytes) :
+    (∀ d, B64.decode a = some d → equalsBytes .binary a other = (d == other)) ∧
+    equalsBytes .ascii a other = (a == other) ∧
+    (valuesEqual enc a b = true → hashKey enc a = hashKey enc b) := by
+  refine ⟨?_, rfl, ?_⟩
+  · intro d hd; simp [equalsBytes, hd]
+  · cases enc with
+    | ascii => simp [valuesEqual, hashKey]
+    | binary =>
+      simp only [valuesEqual, hashKey]
+      cases B64.decode a <;> cases B64.decode b <;> simp
+
+/-! ## a status found in an error's `source()` chain -/
+
+/-- **`Status::from_error` / `try_from_error` keep the metadata.** A status with any code,
+message, details and metadata, passed boxed directly (`ds = []`) or as the innermost `source()`
+under any number of wrapper errors, comes back with the same code, message and details and, for
+every name `k`, the same values in the same order. -/
+theorem C08_status_from_error_chain_keeps_metadata (st : St) (ds : List Bytes) :
+    tryFromError (wrapN ds (.status st)) = some (fromErrorChain (wrapN ds (.status st))) ∧
+    (fromErrorChain (wrapN ds (.status st))).code = st.code ∧
+    (fromErrorChain (wrapN ds (.status st))).message = st.message ∧
+    (fromErrorChain (wrapN ds (.status st))).details = st.details ∧
+    ∀ k, HMap.getAll k (fromErrorChain (wrapN ds (.status st))).metadata = HMap.getAll k st.metadata := by
+  have hf : ∀ ds : List Bytes, findStatus (wrapN ds (.status st)) = some st := by
+    intro ds
+    induction ds with
+    | nil => cases st; rfl
+    | cons d ds ih => simpa [wrapN, findStatus] using ih
+  have ht : tryFromError (wrapN ds (.status st)) = some st := by
+    cases ds with
+    | nil => rfl
+    | cons d ds => simpa [wrapN, tryFromError] using hf (d :: ds)
+  have hr : fromErrorChain (wrapN ds (.status st)) = st := by
+    simp [fromErrorChain, ht]
+  rw [hr]
+  exact ⟨ht, rfl, rfl, rfl, fun _ => rfl⟩
+
+/-- … and through `RecoverError`: when the inner service fails with such an error the
+trailers-only response is the one `Status::into_http` builds for the original status, so it
+carries, under every custom name, exactly the status' values in order. -/
+theorem C08_recover_error_keeps_metadata (st : St) (ds : List Bytes) (k : Bytes)
+    (hk : k ∉ Spec.Metadata.reserved) (hk2 : k ≠ Status.GRPC_STATUS_DETAILS) :
+    ∃ h st', recoverError .fixed (wrapN ds (.status st)) = some (.ok h) ∧
+      HMap.getAll k h = HMap.getAll k st.metadata ∧
+      Status.fromHeaderMap .fixed h = some (.status st') ∧
+      HMap.getAll k st'.metadata = HMap.getAll k st.metadata := by
+  have ht := (C08_status_from_error_chain_keeps_metadata st ds).1
+  have hr : fromErrorChain (wrapN ds (.status st)) = st := by
+    have hf : ∀ ds : List Bytes, findStatus (wrapN ds (.status st)) = some st := by
+      intro ds
+      induction ds with
+      | nil => cases st; rfl
+      | cons d ds ih => simpa [wrapN, findStatus] using ih
+    have ht' : tryFromError (wrapN ds (.status st)) = some st := by
+      cases ds with
+      | nil => rfl
+      | cons d ds => simpa [wrapN, tryFromError] using hf (d :: ds)
+    simp [fromErrorChain, ht']
+  rw [hr] at ht
+  have hct : k ≠ Status.CONTENT_TYPE := by
+    intro h; apply hk; rw [h]; decide
+  have h0 : HMap.getAll k [(Status.CONTENT_TYPE, GRPC_CONTENT_TYPE)] = [] := by
+    simp [HMap.getAll_cons, HMap.getAll_nil, Ne.symm hct]
+  obtain ⟨h, st', h1, h2, h3, h4⟩ := C08_preserved_status st [(Status.CONTENT_TYPE, GRPC_CONTENT_TYPE)] k hk hk2 h0
+  refine ⟨h, st', ?_, h3, h2, h4⟩
+  simp [recoverError, ht, errorResponseWire, h1]
+
+/-! ## unary / client-streaming client: error after response headers -/
+
+/-- **Fails (finding C08-F1).** When a server sends response headers and then an error status in
+the trailers, `client::Grpc::client_streaming` (unary calls too) merges the *headers over* the
+status' metadata by replacement: a status entry whose name also occurs in the response headers
+is lost.  Witness: headers `x-a: 1`, status metadata `x-a: 2` — the caller sees `x-a = [1]`. -/
+theorem C08_unary_error_header_collision_fails :
+    ¬ ∀ (respmd stmd : HMap) (k : Bytes), k ∉ Spec.Metadata.reserved →
+        HMap.getAll k (clientUnaryErrorMetadata respmd stmd) = HMap.getAll k stmd := by
+  intro h
+  have := h [(HMap.name "x-a", [49])] [(HMap.name "x-a", [50])] (HMap.name "x-a") (by decide)
+  revert this
+  decide
+
+/-- … and exactly then: under every custom name that does *not* occur in the response
+metadata the caller sees the status' values unchanged (under the others, the response's). -/
+theorem C08_unary_error_metadata_partial (respmd stmd : HMap) (k : Bytes) (hk : k ∉ Spec.Metadata.reserved) :
+    (HMap.hasKey k respmd = false → HMap.getAll k (clientUnaryErrorMetadata respmd stmd) = HMap.getAll k stmd) ∧
+    (HMap.hasKey k respmd = true → HMap.getAll k (clientUnaryErrorMetadata respmd stmd) = HMap.getAll k respmd) := by
+  have hr := (C08_preserved_response respmd k hk).1
+  have hiff : HMap.hasKey k (responseWire respmd) = HMap.hasKey k respmd := by
+    by_cases h1 : HMap.hasKey k respmd = true
+    · rw [h1]; exact (HMap.hasKey_iff _ _).mpr (by rw [hr]; exact (HMap.hasKey_iff _ _).mp h1)
+    · have h1' : HMap.hasKey k respmd = false := by simpa using h1
+      rw [h1']
+      by_cases h2 : HMap.hasKey k (responseWire respmd) = true
+      · have := (HMap.hasKey_iff _ _).mp h2
+        rw [hr] at this
+        have := (HMap.hasKey_iff _ _).mpr this
+        rw [h1'] at this; cases this
+      · simpa using h2
+  unfold clientUnaryErrorMetadata
+  rw [HMap.getAll_extend, hiff, hr]
+  constructor <;> intro h <;> simp [h]
+
 /-! ## non-vacuity -/
 
 example : Spec.Metadata.isBinName (HMap.name "x-trace-bin") = true ∧ Spec.Metadata.isBinName (HMap.name "x-bin-x") = false ∧
@@ -393,5 +637,15 @@ example : get .orig .ascii (HMap.name "foo-BIN") [(HMap.name "foo-bin", HMap.nam
     get .fixed .ascii (HMap.name "foo-BIN") [(HMap.name "foo-bin", HMap.name "AAEC")] = none ∧
     get .fixed .binary (HMap.name "foo-BIN") [(HMap.name "foo-bin", HMap.name "AAEC")] = some (HMap.name "AAEC") := by decide
 example : (HMap.name "x-a") ∉ Spec.Metadata.reserved ∧ (HMap.name "grpc-status") ∈ Spec.Metadata.reserved := by decide
+/- the insert_entry witness on the repaired model: the handle is typed Binary, the raw bytes given to
+`append` are base64-coded like any other binary value, and both values decode -/
+example : typedView .fixed (finalMap (run .fixed .fixed insertEntryWitness []) []) =
+    [(Enc.binary, HMap.name "x-bin", some [0, 1, 2]), (Enc.binary, HMap.name "x-bin", some (HMap.name "not base64!"))] := by decide
+/- a status three wrappers deep -/
+example : (fromErrorChain (wrapN [[97], [98], [99]] (.status
+    { code := .notFound, message := [109], details := [1], metadata := [(HMap.name "x-a", [49]), (HMap.name "x-a", [50])] }))).metadata =
+    [(HMap.name "x-a", [49]), (HMap.name "x-a", [50])] := by decide
+/- an error without a status in its chain -/
+example : tryFromError (.wrap [97] (.leaf [98])) = none ∧ (fromErrorChain (.wrap [97] (.leaf [98]))).message = [97] := by decide
 
 end C08
